@@ -160,6 +160,95 @@ const MAX_HEIGHT: u64 = 40;
 const HORIZON_SECS: u64 = 400;
 
 // ---------------------------------------------------------------------------------------------
+// In-memory gRPC transport: with a paused clock the runtime advances time whenever it is idle, and
+// it is idle while bytes sit in a kernel socket; duplex pipes wake the peer task directly, so time
+// only moves when every task is really waiting for a timer.
+// ---------------------------------------------------------------------------------------------
+
+mod mem {
+    use std::{
+        future::Future,
+        io,
+        pin::Pin,
+        task::{
+            Context,
+            Poll,
+        },
+    };
+
+    use tokio::io::{
+        AsyncRead,
+        AsyncWrite,
+        DuplexStream,
+    };
+
+    pub(super) struct Io(DuplexStream);
+
+    impl hyper::rt::Read for Io {
+        fn poll_read(mut self: Pin<&mut Self>, cx: &mut Context<'_>, mut buf: hyper::rt::ReadBufCursor<'_>) -> Poll<io::Result<()>> {
+            // same as hyper-util's TokioIo
+            let n = unsafe {
+                let mut tbuf = tokio::io::ReadBuf::uninit(buf.as_mut());
+                match AsyncRead::poll_read(Pin::new(&mut self.0), cx, &mut tbuf) {
+                    Poll::Ready(Ok(())) => tbuf.filled().len(),
+                    other => return other,
+                }
+            };
+            unsafe {
+                buf.advance(n);
+            }
+            Poll::Ready(Ok(()))
+        }
+    }
+
+    impl hyper::rt::Write for Io {
+        fn poll_write(mut self: Pin<&mut Self>, cx: &mut Context<'_>, buf: &[u8]) -> Poll<io::Result<usize>> {
+            AsyncWrite::poll_write(Pin::new(&mut self.0), cx, buf)
+        }
+
+        fn poll_flush(mut self: Pin<&mut Self>, cx: &mut Context<'_>) -> Poll<io::Result<()>> {
+            AsyncWrite::poll_flush(Pin::new(&mut self.0), cx)
+        }
+
+        fn poll_shutdown(mut self: Pin<&mut Self>, cx: &mut Context<'_>) -> Poll<io::Result<()>> {
+            AsyncWrite::poll_shutdown(Pin::new(&mut self.0), cx)
+        }
+    }
+
+    /// Client-side connector: every connection is a fresh duplex pipe whose other end is handed to
+    /// the server's incoming stream.
+    #[derive(Clone)]
+    pub(super) struct Connector(pub(super) tokio::sync::mpsc::UnboundedSender<io::Result<DuplexStream>>);
+
+    impl tonic::codegen::Service<http::Uri> for Connector {
+        type Error = io::Error;
+        type Future = Pin<Box<dyn Future<Output = io::Result<Io>> + Send>>;
+        type Response = Io;
+
+        fn poll_ready(&mut self, _cx: &mut Context<'_>) -> Poll<io::Result<()>> {
+            Poll::Ready(Ok(()))
+        }
+
+        fn call(&mut self, _uri: http::Uri) -> Self::Future {
+            let (client, server) = tokio::io::duplex(1 << 20);
+            let sent = self.0.send(Ok(server));
+            Box::pin(async move {
+                sent.map_err(|_| io::Error::new(io::ErrorKind::ConnectionRefused, "server gone"))?;
+                Ok(Io(client))
+            })
+        }
+    }
+
+    pub(super) fn channel(connector: Connector, timeout: Option<std::time::Duration>) -> tonic::transport::Channel {
+        let mut endpoint = tonic::transport::Endpoint::from_static("http://in-memory");
+        if let Some(t) = timeout {
+            endpoint = endpoint.timeout(t);
+        }
+        endpoint.connect_with_connector_lazy(connector)
+    }
+}
+
+// ---------------------------------------------------------------------------------------------
 // Decision points and answers
 // ---------------------------------------------------------------------------------------------
 
@@ -582,8 +671,8 @@ impl SequencerService for FakeSequencer {
 
 struct Env {
     state_path: PathBuf,
-    celestia: SocketAddr,
-    sequencer: SocketAddr,
+    celestia: mem::Connector,
+    sequencer: mem::Connector,
     metrics: &'static crate::Metrics,
     world: Arc<Mutex<World>>,
     aborts: Arc<Mutex<Vec<tokio::task::AbortHandle>>>,
@@ -602,10 +691,11 @@ async fn session(env: Arc<Env>) -> SessionEnd {
     let last_completed_sequencer_height = submission_state_at_startup.last_completed_sequencer_height();
     let state = Arc::new(State::new());
     let key = tendermint::private_key::Secp256k1::from_slice(&[7u8; 32]).unwrap();
-    let celestia_client_builder = CelestiaClientBuilder::new(
+    // same request timeout as CelestiaClientBuilder::new sets on its endpoint
+    let celestia_client_builder = CelestiaClientBuilder::new_with_channel(
         CELESTIA_CHAIN_ID.to_string(),
         0.002,
-        format!("http://{}", env.celestia).parse().unwrap(),
+        mem::channel(env.celestia.clone(), Some(Duration::from_secs(5))),
         CelestiaKeys::from(key),
         state.clone(),
     )
@@ -625,9 +715,7 @@ async fn session(env: Arc<Env>) -> SessionEnd {
     env.aborts.lock().unwrap().push(submitter_join.abort_handle());
     let mut submitter_task = submitter_join.fuse();
 
-    let sequencer_grpc_client = SequencerServiceClient::new(
-        tonic::transport::Endpoint::from_shared(format!("http://{}", env.sequencer)).unwrap().connect_lazy(),
-    );
+    let sequencer_grpc_client = SequencerServiceClient::new(mem::channel(env.sequencer.clone(), None));
     let relayer = Relayer {
         relayer_shutdown_token,
         submitter_shutdown_token,
@@ -774,9 +862,9 @@ impl Replayer {
             t0: rt.block_on(async { tokio::time::Instant::now() }),
         }));
         let result = rt.block_on(async {
-            use tokio_stream::wrappers::TcpListenerStream;
-            let celestia_listener = tokio::net::TcpListener::bind("127.0.0.1:0").await.unwrap();
-            let celestia = celestia_listener.local_addr().unwrap();
+            use tokio_stream::wrappers::UnboundedReceiverStream;
+            let (celestia_tx, celestia_rx) = tokio::sync::mpsc::unbounded_channel();
+            let celestia = mem::Connector(celestia_tx);
             let fake = FakeCelestia(world.clone());
             let server_c = tokio::spawn(
                 tonic::transport::Server::builder()
@@ -785,17 +873,17 @@ impl Replayer {
                     .add_service(BlobQueryServer::new(fake.clone()))
                     .add_service(MinGasPriceServer::new(fake.clone()))
                     .add_service(TxServer::new(fake))
-                    .serve_with_incoming(TcpListenerStream::new(celestia_listener)),
+                    .serve_with_incoming(UnboundedReceiverStream::new(celestia_rx)),
             );
-            let sequencer_listener = tokio::net::TcpListener::bind("127.0.0.1:0").await.unwrap();
-            let sequencer = sequencer_listener.local_addr().unwrap();
+            let (sequencer_tx, sequencer_rx) = tokio::sync::mpsc::unbounded_channel();
+            let sequencer = mem::Connector(sequencer_tx);
             let server_s = tokio::spawn(
                 tonic::transport::Server::builder()
                     .add_service(SequencerServiceServer::new(FakeSequencer {
                         world: world.clone(),
                         blocks: self.blocks.clone(),
                     }))
-                    .serve_with_incoming(TcpListenerStream::new(sequencer_listener)),
+                    .serve_with_incoming(UnboundedReceiverStream::new(sequencer_rx)),
             );
             let env = Arc::new(Env {
                 state_path: state_path.clone(),
